@@ -22,7 +22,10 @@ RULE = ('contents: every subset-overlay of the nine format signatures (images.SI
         'signatures, text files (with a late non-ASCII byte, a NUL, a createType line early or late) and binary '
         'files; x allowed_formats from a bounded family of 19 subsets (with / without raw, singletons, all) x '
         'read-size sequences (1, 17, 64, 512, 4096, 65536, 1 MiB, random with empty reads; always a final empty read); '
-        'the decision (format / formats) is sampled after every read and after close; plus sequences in one process: '
+        'the decision (format / formats) is read three times after every read and after close; x expected_format '
+        'none / inside / outside allowed_formats / unknown name (all 19+2 subsets x all 12 names on six contents), '
+        'names passed as str, (str, Enum) member, str subclass, subclass with overridden __str__/__repr__/__format__; '
+        'plus sequences in one process: '
         'a valid image of each format (and 2 KiB of zeros) inspected first, then short / empty / other-format '
         'streams, whose decisions must be those of the stream alone; and text VMDK descriptors with the createType '
         'line at offsets 64..4097 and beyond 256 KiB x small allowed_formats x reads of 1..512 bytes (no revision '
@@ -42,8 +45,8 @@ UNMODELLED = [
     'log output',
 ]
 ASSUMPTIONS = [
-    'no expected_format is given (that path belongs to C06); the source returns exactly the requested number of bytes '
-    'until it is exhausted',
+    'when an expected_format cuts the stream off (C06), only the decisions before the cut-off, the way it ended and that '
+    'inspector are compared; the source returns exactly the requested number of bytes until it is exhausted',
 ]
 
 KF = 'KF_F1'
@@ -65,12 +68,55 @@ def proj(reply):
     return '\t'.join(parts[:3] + [';'.join(per)])
 
 
-def impl_wrap(al, data, sizes):
-    """insp_impl.run_wrap, with anything that escapes (e.g. from close()) rendered instead of crashing"""
+def cut_abort(p, expected):
+    """when the expected inspector cut the stream off, what the other inspectors saw of the last chunk (and with it
+    the decision after close) depends on set order: keep the decisions before, how it ended, and that inspector"""
+    parts = p.split('\t')
+    if len(parts) != 4 or parts[1] == 'done':
+        return p
+    own = [e for e in parts[3].split(';') if e.split(' ')[0].rstrip('!') == expected]
+    return '\t'.join([parts[0], parts[1], '-', ';'.join(own)])
+
+
+def impl_wrap(al, data, sizes, expected=None, names='str'):
+    """the implementation's `wrap` rendering (every decision read three times; names optionally passed as str
+    subclasses), with anything that escapes (e.g. from close()) rendered instead of crashing"""
     try:
-        return proj(insp_impl.run_wrap(al, None, data, sizes)[0])
+        return cut_abort(proj(G.run_wrap_b(al, expected, data, sizes, names)), expected)
     except Exception as e:
         return 'ESCAPED:%s' % type(e).__name__
+
+
+EXPECTEDS = G.ALLF + ['foo', '']
+
+
+def pick_opts(rng, al):
+    """(expected_format, how names are passed): half the cases plain; otherwise an expected format inside the
+    allowed set, outside it, or unknown, and names as str subclasses"""
+    if rng.random() < 0.5:
+        return None, 'str'
+    pool = [rng.choice(EXPECTEDS), rng.choice(G.ALLF)]
+    if al:
+        pool += [rng.choice(al), rng.choice([f for f in G.ALLF if f not in al] or G.ALLF)]
+    return rng.choice(pool + [None]), rng.choice(G.NAME_KINDS)
+
+
+def cross_cases(rng, quick):
+    """every allowed_formats subset of the family x every expected_format - inside the subset, outside it,
+    unknown names - on a few contents: formats outside allowed_formats are never considered"""
+    contents = [('image-qcow2', images.qcow2(total=1024)[0]), ('zeros-1024', bytes(1024)),
+                ('image-vmdk', images.vmdk()[0]), ('image-gpt', images.gpt()[0]),
+                ('image-vdi+gpt', G.overlay(images.vdi()[0], ['gpt'], rng)), ('empty', b'')]
+    out = []
+    for label, data in contents:
+        n = len(data)
+        for al in G.ALLOWED_FAMILY + [['foo'], ['foo', 'raw']]:
+            for e in EXPECTEDS:
+                if quick and rng.random() < 0.93:
+                    continue
+                out.append((label, data, al, rng.choice([[n, 0], [512] * (n // 512 + 1) + [0], [64, n, 0]]),
+                            {'expected': e, 'names': rng.choice(G.NAME_KINDS)}))
+    return out
 
 
 def gen_cases(ctx):
@@ -94,11 +140,19 @@ def gen_cases(ctx):
         for al, sizes in [(None, [65536] * (n // 65536 + 2)), (['vhdx', 'raw'], [1 << 20] * (n // (1 << 20) + 2)),
                           (None, [4096] * (n // 4096 + 2))][:2 if ctx.quick else 3]:
             out.append((label, data, al, sizes))
-    return out
+    out2 = []
+    for c in out:
+        e, nk = pick_opts(rng, c[2])
+        out2.append(tuple(c) + ({'expected': e, 'names': nk},))
+    return out2 + cross_cases(rng, ctx.quick)
 
 
-def case_of(label, data, allowed, sizes, sizes_b=None, prior=None, prior_b=None):
+def case_of(label, data, allowed, sizes, sizes_b=None, prior=None, prior_b=None, expected=None, names='str'):
     c = {'label': label, 'allowed': allowed, 'content': insp_impl.content_field(data), 'sizes': list(sizes)}
+    if expected is not None:
+        c['expected'] = expected
+    if names != 'str':
+        c['names'] = names
     if sizes_b is not None:
         c['sizes_b'] = list(sizes_b)
     if prior is not None:
@@ -115,12 +169,16 @@ def priors_of(case, key='prior'):
 def correspondence(ctx):
     rng = ctx.rng
     cases = gen_cases(ctx)
-    lines = [G.wrap_req(al, None, data, sizes) for _, data, al, sizes in cases]
+    lines = [G.wrap_req(al, o['expected'], data, sizes) for _, data, al, sizes, o in cases]
     replies = G.ask_par(ctx.driver, lines)
     out = []
-    for (label, data, al, sizes), rep in zip(cases, replies):
+    for (label, data, al, sizes, o), rep in zip(cases, replies):
         ctx.evaluations += 1
-        pi, pm = impl_wrap(al, data, sizes), proj(rep)
+        exp, nk = o['expected'], o['names']
+        pi, pm = impl_wrap(al, data, sizes, exp, nk), cut_abort(proj(rep), exp)
+        ctx.count('expected/' + ('none' if exp is None else 'unknown' if exp not in G.ALLF else
+                                 'allowed' if (not al or exp in al) else 'outside-allowed'))
+        ctx.count('names-as/' + nk)
         parts = pi.split('\t')
         decs = parts[0].split('|') if parts[0] else []
         final = parts[2] if len(parts) > 2 else '?'
@@ -131,12 +189,12 @@ def correspondence(ctx):
         if early:
             ctx.count('decided-before-last-read')
         if early or final not in ('raw/[raw]',) or (al and 'raw' not in al):
-            ctx.nontrivial((G.digest(data), tuple(al or ()), tuple(sizes)))
+            ctx.nontrivial((G.digest(data), tuple(al or ()), tuple(sizes), exp, nk))
         if ctx.evaluations % 97 == 1:
             ctx.sample({'label': label, 'allowed': al, 'length': len(data), 'reads': sizes[:8],
                         'decisions': decs[:6], 'after_close': final}, 8)
         if pi != pm:
-            out.append(Disagreement(case_of(label, data, al, sizes), pi, pm))
+            out.append(Disagreement(case_of(label, data, al, sizes, expected=exp, names=nk), pi, pm))
     # sequences: a valid image of some format is inspected first, then short / other streams in the same
     # process; the model has no state between requests, so the later stream must look exactly as it does alone
     priors = G.c03_priors(rng, ctx.quick)
@@ -196,18 +254,25 @@ def summary(t):
     return (tuple(t['decisions']), t['final'], tuple(sorted(t['matches'].items())), t['escaped'])
 
 
-def oracle(allowed, data, sizes, prior=()):
-    """(why or None, trace); `prior`: byte strings inspected before, in the same process"""
+def oracle(allowed, data, sizes, prior=(), expected=None, names='str'):
+    """(why or None, trace); `prior`: byte strings inspected before, in the same process; `expected`: the
+    expected_format handed to the wrapper (its cut-off of the stream is C06's subject; every clause about the
+    decision still applies); `names`: how format names are passed (plain str or a str subclass)"""
     inspect_prior(prior)
-    t = G.wrap_trace(allowed, data, sizes)
+    t = G.wrap_trace(allowed, data, sizes, expected, names)
     allowed_set = set(allowed) if allowed else set(G.ALLF)
-    if t['escaped']:
+    if set(t['names']) - allowed_set:
+        return 'inspectors outside allowed_formats were created: %s%s' % (
+            sorted(set(t['names']) - allowed_set), '' if expected is None else ' (expected_format=%r)' % expected), t
+    if t['escaped'] and not (expected is not None and expected in t['names']):
         return 'read() through the wrapper let %s escape' % t['escaped'], t
     if t['close_escaped']:
         return 'close() let %s escape (after close: format=%s formats=%s)' % (
             t['close_escaped'], t['final'][0], t['final'][1]), t
-    if set(t['names']) - allowed_set:
-        return 'inspectors outside allowed_formats were created: %s' % sorted(set(t['names']) - allowed_set), t
+    if t['unstable']:
+        where, ds = t['unstable'][0]
+        return 'format / formats read three times %s gave different answers: %s' % (
+            where, ' then '.join('%s / %s' % (f, list(l) if isinstance(l, tuple) else l) for f, l in ds)), t
     seq = t['decisions'] + [t['final']]
     for k, (f, l) in enumerate(seq):
         where = 'after close' if k == len(seq) - 1 else 'after read %d' % k
@@ -296,12 +361,17 @@ def search(ctx, seeds, full=False):
             return
         (known_like if f1 else fresh).append(Failure(case, {'kind': kind, 'what': why}))
 
-    def run(label, data, al, sizes, prior=()):
+    def run(label, data, al, sizes, prior=(), expected=None, names='str'):
         ctx.evaluations += 1
-        why, t = oracle(al, data, sizes, prior)
+        why, t = oracle(al, data, sizes, prior, expected, names)
         if why and len(fresh) < 8:
+            if names != 'str' and oracle(al, data, sizes, prior, expected, 'str')[0]:
+                names = 'str'
+            if expected is not None and oracle(al, data, sizes, prior, None, names)[0]:
+                expected = None
+
             def still(sub):
-                return oracle(al, data, sub, prior)[0] is not None
+                return oracle(al, data, sub, prior, expected, names)[0] is not None
             small = sizes
             for cand in ([len(data), 0], [4096] * (len(data) // 4096 + 1) + [0], [512] * (len(data) // 512 + 1) + [0]):
                 if len(cand) < len(small) and still(cand):
@@ -309,8 +379,9 @@ def search(ctx, seeds, full=False):
                     break
             if 1 < len(small) <= 48:
                 small = common.shrink_list(small, still, max_steps=30)
-            add(case_of(label, data, al, small, prior=list(prior) or None),
-                '%s: %s' % (label, oracle(al, data, small, prior)[0]))
+            add(case_of(label, data, al, small, prior=list(prior) or None, expected=expected, names=names),
+                '%s: %s%s' % (label, oracle(al, data, small, prior, expected, names)[0],
+                              '' if names == 'str' else ' [format names passed as %s]' % names))
         return t
 
     def sequences(n_later):
@@ -350,7 +421,8 @@ def search(ctx, seeds, full=False):
                     add(dict(s), why)
                 run(s.get('label', 'seed'), data, None, [4096] * (len(data) // 4096 + 2))
             else:
-                run(s.get('label', 'seed'), data, s.get('allowed'), s['sizes'], priors_of(s))
+                run(s.get('label', 'seed'), data, s.get('allowed'), s['sizes'], priors_of(s), s.get('expected'),
+                    s.get('names', 'str'))
         rounds = (2 if full else 1) if ctx.quick else (4 if full else 2)
         for _ in range(rounds):
             for label, data, al, sizes in G.c03_text_descriptors(rng, ctx.quick):
@@ -358,6 +430,10 @@ def search(ctx, seeds, full=False):
                     break
                 run(label, data, al, sizes)
             sequences(2)
+            for label, data, al, sizes, o in cross_cases(rng, ctx.quick and not full):
+                if len(fresh) >= 8:
+                    break
+                run(label, data, al, sizes, (), o['expected'], o['names'])
             contents = G.c03_contents(rng, ctx.quick)
             if full or not ctx.quick:
                 contents += G.c03_huge_contents(rng, True)
@@ -381,6 +457,10 @@ def search(ctx, seeds, full=False):
                                 '%s: read-size-dependent decision: formats %s with one read sequence, %s with another'
                                 % (label, a[0], b[0]), f1)
                             break
+                if not big:            # an expected format (inside / outside allowed, unknown), names as str subclasses
+                    al = rng.choice([None, rng.choice(G.ALLOWED_FAMILY)])
+                    e, nk = pick_opts(rng, al)
+                    run(label, data, al, rng.choice(rs), (), e, nk)
                 if not big and rng.random() < 0.3:
                     ctx.evaluations += 1
                     why = detect_oracle(data, tmp)
@@ -452,7 +532,10 @@ def replay(ctx, payload):
         return 0
     data = G.decode_content(case['content'])
     al = case.get('allowed')
-    print('content: %s, %d bytes; allowed_formats=%s' % (case.get('label'), len(data), al))
+    exp, nk = case.get('expected'), case.get('names', 'str')
+    print('content: %s, %d bytes; allowed_formats=%s%s%s' % (
+        case.get('label'), len(data), al, '' if exp is None else ' expected_format=%r' % exp,
+        '' if nk == 'str' else ' (names passed as %s)' % nk))
     rc = 0
     if case.get('detect'):
         tmp = tempfile.mkdtemp(prefix='verif-C03r-')
@@ -488,9 +571,9 @@ def replay(ctx, payload):
             continue
         sizes = case[key]
         print('read sizes    :', sizes[:40])
-        print('implementation:', impl_wrap(al, data, sizes).replace('\t', '  ||  '))
-        print('model         :', proj(ctx.driver.ask(G.wrap_req(al, None, data, sizes))).replace('\t', '  ||  '))
-        why, _ = oracle(al, data, sizes)
+        print('implementation:', impl_wrap(al, data, sizes, exp, nk).replace('\t', '  ||  '))
+        print('model         :', cut_abort(proj(ctx.driver.ask(G.wrap_req(al, exp, data, sizes))), exp).replace('\t', '  ||  '))
+        why, _ = oracle(al, data, sizes, (), exp, nk)
         print('property oracle on the implementation:', why)
         rc = rc or (1 if why else 0)
     if 'sizes_b' in case:
